@@ -76,7 +76,7 @@ def dec_op(op):
         inputs.append({"times": times, "leads": leads, "locs": locs, "fields": fields})
     reqs = []
     for r in a[3].split(";"):
-        if r:
+        if r and r != "-":
             f, i, ax, k = r.split("@")
             reqs.append((f.split("+"), int(i), ax, None if k == "-" else int(k)))
     return DS(inputs, cfg), reqs
@@ -652,3 +652,88 @@ def add_subset_options(ds, rng):
     if rng.random() < 0.3:
         cfg["obsrange"] = (rng.choice([-1.0, 0.0, 0.5, 1.0]), rng.choice([1.0, 1.5, 2.0, 3.0, 4.5]))
     return DS(ds.inputs, cfg)
+
+
+# ------------------------------------------------------------------ request histories (C18)
+def impl_hist(op):
+    """datahist …: the requests are issued one after the other on ONE Data object.  After every step all arrays
+    returned so far are re-read (retroactive change), at the end every request is repeated on a freshly built
+    Data (history dependence) and the inputs' arrays are compared with their initial copies."""
+    ds, reqs = dec_op(" ".join(["data"] + op.split(" ")[1:]))
+    with warnings.catch_warnings():
+        warnings.simplefilter("ignore")
+        try:
+            ins_before = None
+            data = build_data(ds)
+        except SystemExit:
+            return "ERR init"
+        snapshot = [[np.array(getattr(I, n), float).copy() for n in ("obs", "fcst", "pit") if getattr(I, n) is not None]
+                    for I in data._inputs]
+        out, returned, flags = [], [], []
+        for k, r in enumerate(reqs):
+            f, i, ax, idx = r
+            try:
+                res = data.get_scores([field_obj(n) for n in f], i, axis_obj(ax), idx)
+            except SystemExit:
+                out.append("ERR")
+                break
+            returned.append((res, [np.array(a, float).copy() for a in res]))
+            out.append(";".join(xvec(np.array(o, float).flatten()) for o in res))
+            for j, (live, copy_) in enumerate(returned[:-1]):
+                for a, b in zip(live, copy_):
+                    if not np.array_equal(np.array(a, float), b, equal_nan=True):
+                        flags.append("MUTATED@%d-by-%d" % (j, k))
+        for k, r in enumerate(reqs[:len(out)]):
+            if out[k] == "ERR":
+                continue
+            fresh = run_req(build_data(ds), r)
+            if fresh != out[k]:
+                flags.append("HISTORY@%d[%s vs fresh %s]" % (k, out[k][:60], fresh[:60]))
+        after = [[np.array(getattr(I, n), float) for n in ("obs", "fcst", "pit") if getattr(I, n) is not None]
+                 for I in data._inputs]
+        for a, b in zip(snapshot, after):
+            for x, y in zip(a, b):
+                if not np.array_equal(x, y, equal_nan=True):
+                    flags.append("INPUTMUT")
+        return " | ".join(out + sorted(set(flags)))
+
+
+# ------------------------------------------------------------------ climatology as extra input (C14)
+def impl_clim_extra(op):
+    """dataclimx …: shift-invariant scores under -c K must equal those with K given as an additional input
+    (first columns), and K must not appear among the scored inputs / names."""
+    import verif.metric
+    import verif.axis
+    ds, _ = dec_op(" ".join(["data"] + op.split(" ")[1:] + ["-"]))
+    with warnings.catch_warnings():
+        warnings.simplefilter("ignore")
+        n = len(ds.inputs) - 1
+        try:
+            d_clim = build_data(DS(ds.inputs, dict(ds.cfg, clim=True, div=False)))
+        except SystemExit:
+            d_clim = None
+        try:
+            d_extra = build_data(DS(ds.inputs, {k: v for k, v in ds.cfg.items() if k not in ("clim", "div")}))
+        except SystemExit:
+            d_extra = None
+        if d_clim is None or d_extra is None:
+            return "same" if (d_clim is None) == (d_extra is None) else "diff[init]"
+        out = []
+        if d_clim.num_inputs != n or len(d_clim.get_names()) != n or len(d_clim.get_legend()) != n:
+            out.append("diff[climatology counted as scored input: %d names for %d inputs]" % (len(d_clim.get_names()), n))
+        if any(nm == "in%d" % n for nm in d_clim.get_names()):
+            out.append("diff[climatology in names]")
+        for mname in ("mae", "rmse", "bias", "stderror"):
+            m = verif.metric.get(mname)
+            for ax in ("no", "leadtime", "location"):
+                axis = verif.axis.get(ax)
+                for i in range(n):
+                    try:
+                        a = m.compute(d_clim, i, axis, None)
+                        b = m.compute(d_extra, i, axis, None)
+                    except SystemExit:
+                        out.append("diff[%s %s error]" % (mname, ax))
+                        continue
+                    if not np.allclose(a, b, rtol=1e-9, atol=1e-12, equal_nan=True):
+                        out.append("diff[%s -x %s input %d: -c gives %s, extra input gives %s]" % (mname, ax, i, list(a), list(b)))
+        return "same" if not out else ";".join(out[:4])
